@@ -116,7 +116,8 @@ def _as_dense(x):
     return x.toarray()
 
 
-def check_iteration(row, a, name, encoding, layer, dtype, chunk_edge, size, max_gb, keep_open, root):
+def check_iteration(row, a, name, encoding, layer, dtype, chunk_edge, size, max_gb, keep_open, root,
+                    random_access=None):
     from cell_type_mapper.anndata_iterator.anndata_iterator import AnnDataRowIterator
     a = np.array(a, dtype=dtype)
     n_rows = a.shape[0]
@@ -152,8 +153,10 @@ def check_iteration(row, a, name, encoding, layer, dtype, chunk_edge, size, max_
             if expect_r0 != n_rows:
                 _fail(row, 'every row is yielded exactly once (the chunks end at n_rows)', 'ensures', args, expect_r0)
             # random access on the same object
-            for r0 in range(n_rows):
-                for r1 in range(r0 + 1, n_rows + 1):
+            pairs = [(r0, r1) for r0 in range(n_rows) for r1 in range(r0 + 1, n_rows + 1)]
+            if random_access is not None:
+                pairs = pairs[::max(1, len(pairs) // random_access)]
+            for r0, r1 in pairs:
                     got = it.get_chunk(r0, r1)
                     if (got[1], got[2]) != (r0, r1) or not np.array_equal(_as_dense(got[0]), a[r0:r1]):
                         _fail(row, 'get_chunk(r0, r1) == stored rows r0:r1', 'ensures', dict(args, r0=r0, r1=r1),
@@ -247,6 +250,33 @@ def run(tier='quick', seed=0, jobs=1):
                 raise
             it_row['error'] = f"{type(e).__name__}: {e}\n{traceback.format_exc()[-1500:]}"
             out.append(_done(it_row))
+        # matrices with more than 100 stored values: the CSC -> CSR conversion then works through
+        # several load chunks / output blocks at the smallest memory budgets (the enforced minimum
+        # chunk sizes of 100 are crossed), which the <= 5x4 family above cannot reach
+        big_row = _row('cell_type_mapper.anndata_iterator.anndata_iterator.AnnDataRowIterator.__next__',
+                       'seeded random matrices 31x23 and 61x47 with 150-900 stored values (empty rows and '
+                       'columns included) x {CSC, CSR, dense} x CSC budget {1e-7, 1e-5, 10} GB x '
+                       'row_chunk_size {1, 13, n_rows, n_rows+5}')
+        big_row['form'] = 'seeded-random'
+        try:
+            nprng = np.random.default_rng(seed * 7 + 3)
+            for (nr, nc, dens) in ((31, 23, 0.3), (61, 47, 0.3)):
+                a = nprng.integers(1, 50, size=(nr, nc)) * (nprng.random((nr, nc)) < dens)
+                a[nr // 3, :] = 0
+                a[:, nc // 2] = 0
+                encs = ('csc', 'csr', 'dense') if tier == 'thorough' else ('csc',)
+                for encoding in encs:
+                    for gb in (1e-7, 1e-5, 10):
+                        sizes = (1, 13, nr, nr + 5) if tier == 'thorough' or gb == 1e-7 else (13,)
+                        for size in sizes:
+                            check_iteration(big_row, a.tolist(), f'random-{nr}x{nc}', encoding, None, np.float32,
+                                            None, size, gb, True, root, random_access=12)
+            out.append(_done(big_row))
+        except BaseException as e:   # noqa
+            if isinstance(e, (KeyboardInterrupt, SystemExit)):
+                raise
+            big_row['error'] = f"{type(e).__name__}: {e}\n{traceback.format_exc()[-1500:]}"
+            out.append(_done(big_row))
         try:
             j = 0
             for name, a in MATRICES.items():
